@@ -427,8 +427,15 @@ def run_shard(spec):
         jobs = [('string length and truthiness', STRING_PROG, string_expected(), len(STRING_LENGTHS) * 24)]
     elif spec['kind'] == 'unary':
         st = spec.get('storage', 'local')
-        uvals = CONST_VALS if st == 'const' else vals
-        jobs = [(f'unary+casts ({st} operands)', unary_program(st), unary_expected(sem, uvals), len(uvals) * (len(UNARY) + 19))]
+        if st == 'const':
+            # also constants beyond the word (the immediate wraps like any other value; none of them wraps to 0, where folding on
+            # unbounded integers - the recorded finding fold-nowrap - would show in the truthiness tests)
+            half, full = 1 << (8 * word - 1), 1 << (8 * word)
+            cvals = CONST_VALS + [half, full - 1, full + 5, -half - 1, 3 * half + 1]
+            jobs = [(f'unary+casts ({st} operands)', unary_program(st, cvals), unary_expected(sem, [sem.wrap(v) for v in cvals]), len(cvals) * (len(UNARY) + 19))]
+            vals = cvals
+        else:
+            jobs = [(f'unary+casts ({st} operands)', unary_program(st), unary_expected(sem, vals), len(vals) * (len(UNARY) + 19))]
     else:
         jobs = []
         for pos in spec['positions']:
@@ -462,9 +469,9 @@ def run_shard(spec):
                     j = next((k for k, (x, y) in enumerate(zip(gs, ws)) if x != y), 0)
                     nops = len(spec.get('ops', [1]))
                     if spec['kind'] == 'binary':
-                        msg = (f'a={vals[i]} b={vals[j // nops]} op {spec["ops"][j % nops]}: printed {gs[j]!r}, specified {ws[j]!r}')
+                        msg = (f'a={vals[i] if i < len(vals) else "?"} b={vals[j // nops] if j // nops < len(vals) else "?"} op {spec["ops"][j % nops]}: printed {gs[j]!r}, specified {ws[j]!r}')
                     else:
-                        msg = f'a={vals[i]} item {j}: printed {gs[j]!r}, specified {ws[j]!r}'
+                        msg = f'a={vals[i] if i < len(vals) else "?"} item {j}: printed {gs[j]!r}, specified {ws[j]!r}'
                     break
             runner.fail(res, 'M-OP', f'{tag} (word {word}): {msg}', case, expected=want[:400].decode('latin-1'), observed=o.brief())
             continue
